@@ -107,6 +107,8 @@ impl SnapshotTracker {
 	pub(crate) fn register_current(&self, load: impl FnOnce() -> u64) -> u64 {
 		let _gate = self.gate.read();
 		let seq_num = load();
+		#[cfg(surrealkv_verif)]
+		crate::verif::yp_held("begin:loaded_unregistered");
 		self.register(seq_num);
 		seq_num
 	}
